@@ -344,6 +344,31 @@ def datetime_coercers(ctx: Ctx):
     return out
 
 
+def _loop_table_values(ctx, q, name, inside):
+    """Values a loop variable takes when the enclosing `for` walks a literal tuple/list of tuples (or of plain values)."""
+    f = ctx.fn(q)
+    for lp in walk_function(f.node):
+        if not isinstance(lp, ast.For) or not any(x is inside for b in lp.body for x in ast.walk(b)):
+            continue
+        if not isinstance(lp.iter, (ast.Tuple, ast.List)) or not lp.iter.elts:
+            continue
+        tg = lp.target
+        if isinstance(tg, ast.Name) and tg.id == name:
+            exprs = list(lp.iter.elts)
+        elif isinstance(tg, ast.Tuple) and any(isinstance(e, ast.Name) and e.id == name for e in tg.elts):
+            k = [i for i, e in enumerate(tg.elts) if isinstance(e, ast.Name) and e.id == name][0]
+            if not all(isinstance(row, (ast.Tuple, ast.List)) and len(row.elts) == len(tg.elts) for row in lp.iter.elts):
+                return None
+            exprs = [row.elts[k] for row in lp.iter.elts]
+        else:
+            continue
+        try:
+            return [ctx.eval_in(q, e) for e in exprs]
+        except AnalysisError:
+            return None
+    return None
+
+
 @rule("C05", "C05.R1", "who may write the attribute multimap: the normaliser, or a store whose value satisfies the partition for its key", 3, family="F-WRITE",
       decides="no entry path can put an un-normalised value (raw string time, unresolved name) into a record")
 def c05_r1(ctx: Ctx, rule):
@@ -368,6 +393,11 @@ def c05_r1(ctx: Ctx, rule):
             key = ctx.eval_in(s.func, s.node.targets[0].slice)
             val = s.node.value
             elems = val.elts if isinstance(val, (ast.Set, ast.List, ast.Tuple)) else None
+            if not isinstance(key, QN) and isinstance(s.node.targets[0].slice, ast.Name):
+                # `for key, v in ((K1, a), (K2, b)): self._attributes[key] = {..}`: the key ranges over a literal table
+                keys = _loop_table_values(ctx, s.func, s.node.targets[0].slice.id, s.node)
+                if keys and all(isinstance(k, QN) for k in keys) and (all(k in lit for k in keys) or all(k in qn for k in keys)):
+                    key = keys[0]
             if isinstance(key, QN) and elems is not None:
                 if key in lit:
                     ok = all(isinstance(e, ast.Call) and call_name(e) in coercers for e in elems)
